@@ -74,6 +74,8 @@ type gen struct {
 	maxNest int
 	pExit   float64
 	pStep   float64
+	// loopDepth counts the enclosing loops of the statement being generated
+	loopDepth int
 }
 
 func (g *gen) leaf() plgen.Stmt {
@@ -110,9 +112,19 @@ func (g *gen) block(nest, max int) []plgen.Stmt {
 	n := 1 + g.r.Intn(max)
 	var out []plgen.Stmt
 	for i := 0; i < n; i++ {
-		if nest < g.maxNest && g.r.Intn(5) == 0 {
+		switch {
+		case nest < g.maxNest && g.r.Intn(5) == 0:
 			out = append(out, g.wrap(nest))
-		} else {
+		case g.loopDepth > 0 && g.r.Intn(12) == 0:
+			// break / continue, bare or guarded, only inside a loop of this script
+			k := []string{"break", "continue"}[g.r.Intn(2)]
+			if g.r.Intn(2) == 0 {
+				out = append(out, plgen.Stmt{K: k})
+			} else {
+				n := int64(g.r.Intn(2))
+				out = append(out, plgen.Stmt{K: "if", N: n, Cond: map[int64]string{0: "false", 1: "true"}[n], Body: []plgen.Stmt{{K: k}}})
+			}
+		default:
 			out = append(out, g.leaf())
 		}
 	}
@@ -127,6 +139,10 @@ func (g *gen) wrap(nest int) plgen.Stmt {
 			n = 0
 		}
 		s := plgen.Stmt{K: "if", N: n, Cond: map[int64]string{0: "false", 1: "true"}[n], Body: g.block(nest+1, 3)}
+		for k := g.r.Intn(4); k > 0 && g.r.Intn(2) == 0; k-- {
+			bn := int64(g.r.Intn(2))
+			s.Elifs = append(s.Elifs, plgen.Branch{Cond: map[int64]string{0: "false", 1: "true"}[bn], N: bn, Body: g.block(nest+1, 2)})
+		}
 		if g.r.Intn(3) == 0 {
 			s.Has = true
 			s.Else = g.block(nest+1, 2)
@@ -135,7 +151,10 @@ func (g *gen) wrap(nest int) plgen.Stmt {
 	case 1, 2:
 		n := int64(g.r.Intn(4))
 		v := fmt.Sprintf("i%d", nest)
-		return plgen.Stmt{K: "for", N: n, V: v, Init: v + " = 0", Cond: fmt.Sprintf("%s < %d", v, n), Post: fmt.Sprintf("%s = %s + 1", v, v), Body: g.block(nest+1, 3)}
+		g.loopDepth++
+		body := g.block(nest+1, 3)
+		g.loopDepth--
+		return plgen.Stmt{K: "for", N: n, V: v, Init: v + " = 0", Cond: fmt.Sprintf("%s < %d", v, n), Post: fmt.Sprintf("%s = %s + 1", v, v), Body: body}
 	default:
 		// for-in over a list, a map or a string: the body never looks at the loop variable, so the
 		// (unspecified) order of map keys cannot matter; only the number of iterations does
@@ -156,7 +175,10 @@ func (g *gen) wrap(nest int) plgen.Stmt {
 		default:
 			iter = fmt.Sprintf("%q", "wxyz"[:n])
 		}
-		return plgen.Stmt{K: "forin", N: n, V: fmt.Sprintf("x%d", nest), Iter: iter, Body: g.block(nest+1, 3)}
+		g.loopDepth++
+		body := g.block(nest+1, 3)
+		g.loopDepth--
+		return plgen.Stmt{K: "forin", N: n, V: fmt.Sprintf("x%d", nest), Iter: iter, Body: body}
 	}
 }
 
@@ -217,9 +239,10 @@ type obsRec struct {
 }
 
 type mframe struct {
-	name   string
-	scopes []map[string]*int64 // nil pointer value = variable holding nil
-	exit   bool
+	name      string
+	scopes    []map[string]*int64 // nil pointer value = variable holding nil
+	exit      bool
+	brk, cont bool // a break / continue is pending (mirrors the interpreter's loop flags)
 }
 
 type chainEnt struct {
@@ -272,7 +295,18 @@ func show(x *int64) string {
 
 func i64(n int64) *int64 { return &n }
 
-func (m *model) stop(f *mframe) bool { return f.exit || m.cancel }
+func (m *model) stop(f *mframe) bool { return f.exit || m.cancel || f.brk || f.cont }
+
+// endIter mirrors the checks after a loop body: a pending break ends the loop, a pending
+// continue is cleared, then exit / cancellation end the loop.
+func (m *model) endIter(f *mframe) (leave bool) {
+	if f.brk {
+		f.brk = false
+		return true
+	}
+	f.cont = false
+	return f.exit || m.cancel
+}
 
 // stmts mirrors RunStmts: stop after an error; after every statement check exit/cancel.
 func (m *model) stmts(f *mframe, ss []plgen.Stmt) bool {
@@ -332,6 +366,10 @@ func (m *model) stmt(f *mframe, s *plgen.Stmt) bool {
 		}
 	case "exit":
 		f.exit = true
+	case "break":
+		f.brk = true
+	case "continue":
+		f.cont = true
 	case "use":
 		m.uses++
 		callee := &mframe{name: s.Arg, scopes: []map[string]*int64{{}}}
@@ -348,7 +386,16 @@ func (m *model) stmt(f *mframe, s *plgen.Stmt) bool {
 			ok := m.stmts(f, s.Body)
 			f.pop()
 			return ok
-		} else if s.Has {
+		}
+		for bi := range s.Elifs {
+			if s.Elifs[bi].N == 1 {
+				f.push()
+				ok := m.stmts(f, s.Elifs[bi].Body)
+				f.pop()
+				return ok
+			}
+		}
+		if s.Has {
 			f.push()
 			ok := m.stmts(f, s.Else)
 			f.pop()
@@ -369,7 +416,7 @@ func (m *model) stmt(f *mframe, s *plgen.Stmt) bool {
 			if !ok {
 				return false
 			}
-			if m.stop(f) {
+			if m.endIter(f) {
 				break
 			}
 			x, _ = f.lookup(s.V)
@@ -388,7 +435,7 @@ func (m *model) stmt(f *mframe, s *plgen.Stmt) bool {
 			if !m.stmts(f, s.Body) {
 				return false
 			}
-			if m.stop(f) {
+			if m.endIter(f) {
 				break
 			}
 		}
